@@ -11,14 +11,17 @@ CONSTANTS
   KeyU, PatU, ParentU,   \* universes the read invariants range over
   MaxVer,        \* bound on CAS versions (state constraint)
   MaxAcq,        \* bound on acquire-lock requests (state constraint)
+  MaxSubs,       \* bound on simultaneously live subscriptions / ls-subscriptions
   NeedConnect    \* TRUE: a client must be connected to issue requests
 
 HasClient(r) == "c" \in DOMAIN r
 
 Enabled(r) ==
   /\ ~S.down
-  /\ (NeedConnect /\ HasClient(r) /\ r.op # "connect") => r.c \in S.clients
+  /\ (NeedConnect /\ HasClient(r) /\ r.op # "connect") => r.c \in S.clients \cup {INT}
   /\ r.op \in {"sub", "psub", "subls"} => <<r.c, r.tid>> \notin R.usedIds
+  /\ r.op \in {"sub", "psub"} => Cardinality(S.subs) < MaxSubs
+  /\ r.op = "subls" => Cardinality(S.lsSubs) < MaxSubs
   /\ r.op = "connect" => r.c \notin S.clients
   /\ r.op = "disconnect" => r.c \in S.clients
   /\ r.op = "spubinit" => <<r.c, r.tid>> \notin DOMAIN S.spub
@@ -30,11 +33,16 @@ Spec == Init /\ [][Next]_vars
 Bound ==
   /\ \A q \in DOMAIN S.store : S.store[q].n <= MaxVer
   /\ R.nacq <= MaxAcq
+  \* Store.locked_keys grows with every lock/acquire until the session ends
+  /\ \A c \in DOMAIN S.lockedKeys : Len(S.lockedKeys[c]) <= MaxAcq
 
 \* --- invariants (parameterless, for the cfg) ---
 C01Inv == C01State(KeyU, PatU)
 C05Inv == C05State(ParentU, PatU)
 EdgeInv == EdgeRep /\ EdgeEv /\ EdgeLk /\ EdgeOnce
+
+\* the meaning table travels to the harness with the edge dump
+ASSUME PrintT(<<"MEANING", ToJson(Meaning)>>)
 
 \* --- edge emission: VIEW hides the observation so that every abstract
 \*     state is expanded once; the action constraint prints every edge ---
